@@ -155,6 +155,8 @@ func checkC16(w *World, c *Check, tier string) {
 	c.Trusted = []string{"go/ssa", "apcheck prov.go, abstract interpreter"}
 	c.floor("C16.cover", 15)
 	c.floor("C16.guard", 1)
+	c.floor("C16.accessor", 42)
+	checkAccessors(w, c, "C16.accessor", []string{"IsObject", "GetID", "GetLink"})
 	pr := newProver(w)
 	var roots []*ssa.Function
 	for _, n := range []string{"FlattenActivityProperties", "FlattenIntransitiveActivityProperties", "FlattenObjectProperties", "FlattenActorProperties", "FlattenProperties"} {
@@ -416,6 +418,7 @@ func checkC18(w *World, c *Check, tier string) {
 	c.Trusted = []string{"go/ssa", "apcheck prov.go, abstract interpreter"}
 	c.floor("C18.merge", 30)
 	c.floor("C18.cover", 30)
+	c.floor("C18.complete", 6)
 	c.floor("C18.guards", 5)
 	pr := newProver(w)
 	copyItem := w.Func("CopyItemProperties")
@@ -575,11 +578,13 @@ func checkC18(w *World, c *Check, tier string) {
 	}
 	sort.Slice(mfns, func(i, j int) bool { return funcName(mfns[i]) < funcName(mfns[j]) })
 	coveredBy := map[string]map[string]bool{} // merge fn -> fields
+	coverSites := map[*ssa.Function]map[string][]ssa.Instruction{}
 	for _, mf := range mfns {
 		if len(mf.Params) < 2 {
 			continue
 		}
 		coveredBy[funcName(mf)] = map[string]bool{}
+		coverSites[mf] = map[string][]ssa.Instruction{}
 		// the merge function itself, plus package helpers it hands its own (to, from) pair to, in that order
 		// (copyActorCollections(to, from)): their stores count as the merge function's
 		type unit struct {
@@ -745,7 +750,100 @@ func checkC18(w *World, c *Check, tier string) {
 				}
 			}
 			coveredBy[funcName(mf)][fname] = true
+			if a.fn == mf {
+				coverSites[mf][fname] = append(coverSites[mf][fname], a.instr)
+			} else {
+				for _, call := range callsIn(mf) {
+					if call.Common().StaticCallee() == a.fn {
+						coverSites[mf][fname] = append(coverSites[mf][fname], call)
+					}
+				}
+			}
 			c.ok("C18.merge", key, w.InstrPos(a.instr), "to."+fname+" ← from."+fname)
+		}
+	}
+	// ---- complete: a successful return comes after the merge of every property. For each merge function, each return
+	// that is not an error return, and each merged property: every path from the entry to that return passes the
+	// property's merge (the store, or a branch above it that tests that very property of the update). A shortcut
+	// ("the update brings nothing new: return") decides from something coarser than the properties themselves — an
+	// equality that skips media type and source, or compares nested items by id — and leaves exactly those unmerged ----
+	for _, mf := range mfns {
+		sites := coverSites[mf]
+		if len(sites) == 0 {
+			continue
+		}
+		fromRoot := pr.canonicalRoot(mf.Params[1])
+		toRoot := pr.canonicalRoot(mf.Params[0])
+		nR := 0
+		for _, rb := range returnBlocks(mf) {
+			ret := rb.Instrs[len(rb.Instrs)-1].(*ssa.Return)
+			if len(ret.Results) == 0 {
+				continue
+			}
+			ev := ret.Results[len(ret.Results)-1]
+			if !isNilConst(ev) {
+				isErr := false
+				for _, g := range rawGuards(rb) {
+					if bo, ok := g.cond.(*ssa.BinOp); ok && bo.Op == token.NEQ && g.onTrue && (bo.X == ev && isNilConst(bo.Y) || bo.Y == ev && isNilConst(bo.X)) {
+						isErr = true
+					}
+				}
+				if isErr {
+					continue
+				}
+			}
+			nR++
+			var missed []string
+			var fields []string
+			for f := range sites {
+				fields = append(fields, f)
+			}
+			sort.Strings(fields)
+			for _, f := range fields {
+				region := map[*ssa.BasicBlock]bool{}
+				for _, in := range sites[f] {
+					region[in.Block()] = true
+					for d := in.Block().Idom(); d != nil; d = d.Idom() {
+						br, isIf := d.Instrs[len(d.Instrs)-1].(*ssa.If)
+						if !isIf {
+							continue
+						}
+						for _, r := range pr.prov(br.Cond).list() {
+							if len(r.Names) >= 1 && r.Names[0] == f && (r.Root == fromRoot || r.Root == toRoot) {
+								region[d] = true
+							}
+						}
+					}
+				}
+				if region[rb] {
+					continue
+				}
+				// is there a path entry -> rb that avoids the region?
+				seenB := map[*ssa.BasicBlock]bool{}
+				work := []*ssa.BasicBlock{mf.Blocks[0]}
+				reached := false
+				for len(work) > 0 && !reached {
+					b := work[len(work)-1]
+					work = work[:len(work)-1]
+					if seenB[b] || region[b] {
+						continue
+					}
+					seenB[b] = true
+					if b == rb {
+						reached = true
+					}
+					work = append(work, b.Succs...)
+				}
+				if reached {
+					missed = append(missed, f)
+				}
+			}
+			key := fmt.Sprintf("%s:return#%d", funcName(mf), nR)
+			if len(missed) > 0 {
+				c.bad("C18.complete", key, w.InstrPos(ret), fmt.Sprintf("%s can return successfully on a path that has not merged %s: whatever decides to take that path (an equality test, a flag) is coarser than the properties themselves, so an update whose only news is one of them is dropped while the caller is told it was applied", funcName(mf), strings.Join(missed, ", ")))
+			} else {
+				c.ok("C18.complete", key, w.InstrPos(ret), fmt.Sprintf("every path to this return passes the merge of all %d properties", len(fields)))
+			}
 		}
 	}
 	// ---- cover ----
